@@ -163,9 +163,11 @@ func c01WedgeWitness() (string, string) {
 
 // waitFor sends raw until a reply with the given sequence number arrives (or tries are exhausted).
 func c01Request(p *vPeer, raw []byte, seq uint32) message.Message {
-	for try := 0; try < 6; try++ {
+	// loopback does not lose datagrams: the request is sent once and waited for generously; a resend
+	// (only after 4 s of silence) would execute a non-idempotent request twice
+	for try := 0; try < 3; try++ {
 		p.send(raw)
-		deadline := time.Now().Add(time.Duration(100*(try+1)) * time.Millisecond)
+		deadline := time.Now().Add(4 * time.Second)
 		for time.Now().Before(deadline) {
 			b, ok := p.recvRaw(time.Until(deadline))
 			if !ok {
